@@ -1,5 +1,7 @@
 package yqlib
 
+import yaml "gopkg.in/yaml.v3"
+
 // C15 — sort, min/max and the comparison operators agree on one consistent total order.
 
 type c15Val struct {
@@ -357,6 +359,63 @@ func VerifC15MixedNumbers() {
 	verifCover("C15/mixed/end")
 }
 
+// VerifC15OddNumbers: numbers in spellings the integer reader does not take (signed hex, binary, beyond 64 bits, a
+// mistagged scalar) and the infinities, against each other and against ordinary numbers: sorting never crashes, the
+// comparator stays antisymmetric, follows the numeric order wherever both have a numeric value, and `<`, `>=`, min
+// agree with it there.
+func VerifC15OddNumbers() {
+	type num struct {
+		tag, text string
+		val       float64
+		hasVal    bool
+	}
+	big := 1e308
+	inf := big * 10
+	nums := []num{{"!!int", "-0x10", 0, false}, {"!!int", "0b101", 0, false}, {"!!int", "9223372036854775808", 9223372036854775808, true},
+		{"!!int", "abc", 0, false}, {"!!int", "1", 1, true}, {"!!int", "0x10", 16, true}, {"!!float", "15.5", 15.5, true},
+		{"!!float", ".inf", inf, true}, {"!!float", "-.inf", -inf, true}, {"!!float", "+.Inf", inf, true}, {"!!int", "-9223372036854775808", -9223372036854775808, true},
+		{"!!float", "1e400", inf, false}, {"!!int", "0o17", 15, true}}
+	i, j := verifChoice("x", len(nums)), verifChoice("y", len(nums))
+	a, b := nums[i], nums[j]
+	x := &CandidateNode{Kind: ScalarNode, Tag: a.tag, Value: a.text}
+	y := &CandidateNode{Kind: ScalarNode, Tag: b.tag, Value: b.text}
+	cxy := sortableNodeArray(nil).compare(x, y, vRFC3339)
+	cyx := sortableNodeArray(nil).compare(y, x, vRFC3339)
+	label := a.text + " vs " + b.text
+	verifAssert((cxy < 0) == (cyx > 0) && (cxy == 0) == (cyx == 0), "C15/antisymmetric odd-numbers "+label)
+	if a.hasVal && b.hasVal {
+		verifAssert((cxy < 0) == (a.val < b.val) && (cxy > 0) == (a.val > b.val), "C15/agrees-numeric odd-numbers "+label)
+	}
+	// an integer beyond 64 bits has a numeric value for sorting; the comparison operators report an error for it
+	// (not defined there), which is no disagreement
+	if a.hasVal && b.hasVal && a.text != "9223372036854775808" && b.text != "9223372036854775808" {
+		doc := func() *CandidateNode { return vDoc(vSeq(vS(a.tag, a.text), vS(b.tag, b.text))) }
+		for _, op := range []string{"<", ">="} {
+			res, err := vEval(vParse(".[0] "+op+" .[1]"), doc())
+			verifAssert(err == nil && res.Len() == 1, "C15/compare-error odd-numbers "+op+" "+label)
+			if err == nil && res.Len() == 1 {
+				want := cxy < 0
+				if op == ">=" {
+					want = cxy >= 0
+				}
+				verifAssert(res.Front().Value.(*CandidateNode).Value == vBoolStr(want), "C15/compare-op-disagrees-with-sort odd-numbers "+op+" "+label)
+			}
+		}
+		res, err := vEval(vParse("min"), doc())
+		verifAssert(err == nil && res.Len() == 1, "C15/min-error odd-numbers "+label)
+		if err == nil && res.Len() == 1 {
+			want := a.text
+			if cyx < 0 {
+				want = b.text
+			}
+			verifAssert(res.Front().Value.(*CandidateNode).Value == want, "C15/min-disagrees-with-sort odd-numbers "+label)
+		}
+	}
+	res, err := vEval(vParse("sort"), vDoc(vSeq(vS(a.tag, a.text), vS(b.tag, b.text))))
+	verifAssert(err == nil && res.Len() == 1 && len(res.Front().Value.(*CandidateNode).Content) == 2, "C15/sort-error odd-numbers "+label)
+	verifCover("C15/odd/end")
+}
+
 // VerifC15MinMax: min and max of a sequence of numbers or of strings are elements of it that no other element
 // undercuts / exceeds under the sort comparator.
 func VerifC15MinMax() {
@@ -439,3 +498,65 @@ func VerifC15SortKeys() {
 	}
 	verifCover("C15/sortkeys/end")
 }
+
+// VerifC15SortKeysSameSpelling: keys of different type may share their spelling (1 and "1"); sort_keys keeps every
+// entry (key type, key text and value together), orders by key text and keeps entries of equal text in input order.
+func VerifC15SortKeysSameSpelling() {
+	n := 2 + verifChoice("n", 2)
+	m := vMap()
+	var keys, vals []string
+	var isInt []bool
+	for i := 0; i < n; i++ {
+		k := verifStrN("k"+verifItoa(int64(i)), 1, "09")
+		ki := verifBool("int" + verifItoa(int64(i)))
+		for j := range keys {
+			verifAssume(verifOr(!verifEqStr(keys[j], k), isInt[j] != ki))
+		}
+		v := verifStrN("v"+verifItoa(int64(i)), 1, "09")
+		keys, vals, isInt = append(keys, k), append(vals, v), append(isInt, ki)
+		if ki {
+			m.Content = append(m.Content, vInt(k), vInt(v))
+		} else {
+			kn := vStr(k)
+			kn.Style = yaml.DoubleQuotedStyle
+			m.Content = append(m.Content, kn, vInt(v))
+		}
+	}
+	res, err := vEval(vParse("sort_keys(.)"), vDoc(m))
+	verifAssert(err == nil && res.Len() == 1, "C15/sort-keys-same-spelling-error")
+	if err != nil || res.Len() != 1 {
+		return
+	}
+	out := res.Front().Value.(*CandidateNode)
+	verifAssert(out.Kind == MappingNode && len(out.Content) == 2*n, "C15/sort-keys-lost-an-entry-with-a-shared-spelling")
+	if out.Kind != MappingNode || len(out.Content) != 2*n {
+		return
+	}
+	pos := make([]int, n) // position in the output of input entry j
+	for j := 0; j < n; j++ {
+		found := false
+		for i := 0; i < n; i++ {
+			k, v := out.Content[2*i], out.Content[2*i+1]
+			if (k.Tag == "!!int") == isInt[j] && verifEqStr(k.Value, keys[j]) && verifEqStr(v.Value, vals[j]) {
+				found = true
+				pos[j] = i
+			}
+		}
+		verifAssert(found, "C15/sort-keys-entry-missing-or-separated-from-its-value")
+		if !found {
+			return
+		}
+	}
+	for i := 1; i < n; i++ {
+		verifAssert(!verifLessStr(out.Content[2*i].Value, out.Content[2*i-2].Value), "C15/sort-keys-not-ascending")
+	}
+	for a := 0; a < n; a++ {
+		for b := a + 1; b < n; b++ {
+			if verifEqStr(keys[a], keys[b]) {
+				verifAssert(pos[a] < pos[b], "C15/sort-keys-equal-spellings-reordered")
+			}
+		}
+	}
+	verifCover("C15/sortkeys-same-spelling/end")
+}
+
